@@ -25,15 +25,15 @@ type fnInfo struct {
 }
 
 type Program struct {
-	Prog     *ssa.Program
-	Pkgs     map[string]*ssa.Package // by import path
-	RepoMod  string                  // module path prefix of the code under test
-	fnInfos  sync.Map                // *ssa.Function -> *fnInfo
-	Intr     map[string]Intrinsic
-	InitPkgs []string // packages whose init is executed (in order)
-	covMu    sync.Mutex
-	Covered  map[string]int // repo functions executed -> instruction count
-	coverSeen sync.Map      // unit/tag already witnessed
+	Prog      *ssa.Program
+	Pkgs      map[string]*ssa.Package // by import path
+	RepoMod   string                  // module path prefix of the code under test
+	fnInfos   sync.Map                // *ssa.Function -> *fnInfo
+	Intr      map[string]Intrinsic
+	InitPkgs  []string // packages whose init is executed (in order)
+	covMu     sync.Mutex
+	Covered   map[string]int // repo functions executed -> instruction count
+	coverSeen sync.Map       // unit/tag already witnessed
 }
 
 func (p *Program) info(fn *ssa.Function) *fnInfo {
@@ -113,54 +113,54 @@ type PathResult struct {
 }
 
 type Interp struct {
-	P        *Program
-	ts       *TermStore
-	sol      *Solver
-	globals  map[*ssa.Global]*Obj
-	bytes    [256]*Term
-	strCache map[string]Str
+	P         *Program
+	ts        *TermStore
+	sol       *Solver
+	globals   map[*ssa.Global]*Obj
+	bytes     [256]*Term
+	strCache  map[string]Str
 	slotCache map[*types.Struct]int
-	nextObj  int
-	undo     []undoRec
-	undoOn   bool
-	cfg      *UnitConfig
+	nextObj   int
+	undo      []undoRec
+	undoOn    bool
+	cfg       *UnitConfig
 
 	// per-path
-	prefix   []Decision
-	taken    []Decision
-	di       int
-	pc       []pcConj
-	steps    int
-	nvar     int
-	nondet   []NondetVar
-	res      *PathResult
-	unit     string
-	ufCalls  map[string][]ufCall
-	env      *envState // environment models (vfs, clock, ...) per path
-	sched    *scheduler
-	depth    int
-	onceUndo []*Obj
-	model      map[int]uint64
-	evalMemo   map[int]uint64
-	pathVars   []*Term
-	pcSet      map[int]bool
-	ufParent    map[int]int
-	compInvalid map[int]bool
-	varByID     map[int]*Term
-	varsMemo    map[int][]*Term
-	secScaled  map[int]*Term // Duration terms that are seconds*1e9 without overflow -> the seconds term
+	prefix       []Decision
+	taken        []Decision
+	di           int
+	pc           []pcConj
+	steps        int
+	nvar         int
+	nondet       []NondetVar
+	res          *PathResult
+	unit         string
+	ufCalls      map[string][]ufCall
+	env          *envState // environment models (vfs, clock, ...) per path
+	sched        *scheduler
+	depth        int
+	onceUndo     []*Obj
+	model        map[int]uint64
+	evalMemo     map[int]uint64
+	pathVars     []*Term
+	pcSet        map[int]bool
+	ufParent     map[int]int
+	compInvalid  map[int]bool
+	varByID      map[int]*Term
+	varsMemo     map[int][]*Term
+	secScaled    map[int]*Term // Duration terms that are seconds*1e9 without overflow -> the seconds term
 	InitProblems []string
 	writeMark    int // object ids below this were allocated before vpWriteSetBegin
 	sharedWrites int
-	decProv  map[string]*Term
+	decProv      map[string]*Term
 }
 
 type UnitConfig struct {
-	MaxSteps      int
-	MaxDecisions  int
-	QueryTimeout  int
-	Debug         bool
-	TraceCalls    bool
+	MaxSteps         int
+	MaxDecisions     int
+	QueryTimeout     int
+	Debug            bool
+	TraceCalls       bool
 	WedgeIsViolation bool
 }
 
